@@ -80,11 +80,8 @@ COMPONENT_SPECS = [
     {"kind": "spy", "outcome": "allow", "delay": 5},
     {"kind": "spy", "outcome": "deny", "response": "53 Scripted deny\r\n"},
     {"kind": "spy", "outcome": "deny", "delay": 5, "response": "44 Scripted slow deny\r\n"},
-    {"kind": "spy", "outcome": "deny", "response": None},
     {"kind": "spy", "outcome": "raise"},
     {"kind": "spy", "outcome": "raise", "delay": 5},
-    {"kind": "spy", "outcome": "raise", "exc": "CancelledError"},
-    {"kind": "spy", "outcome": "raise", "exc": "StrRaises", "delay": 5},
     {"kind": "acl", "deny": True},
     {"kind": "acl", "deny": False},
     {"kind": "cert", "allow_fp": None},
@@ -95,6 +92,10 @@ COMPONENT_SPECS = [
     {"kind": "cert", "allow_fp": None, "prefix": "/private/"},
     {"kind": "cert", "allow_fp": "other", "prefix": "/private/"},
     {"kind": "cert", "allow_fp": "appended"},
+    # (appended at the end: the index lists in chains() refer to the positions above)
+    {"kind": "spy", "outcome": "deny", "response": None},
+    {"kind": "spy", "outcome": "raise", "exc": "CancelledError"},
+    {"kind": "spy", "outcome": "raise", "exc": "StrRaises", "delay": 5},
 ]
 
 
@@ -400,12 +401,12 @@ def chains(ctx, rng):
     # all single components, all ordered pairs of a reduced alphabet, sampled triples
     for s in COMPONENT_SPECS:
         out.append([s])
-    small = [COMPONENT_SPECS[i] for i in (0, 1, 2, 4, 5, 6, 7, 8, 10, 11, 12, 13)]
+    small = [COMPONENT_SPECS[i] for i in (0, 1, 2, 4, 5, 6, 7, 8, 10, 11, 12, 13, 16, 17, 18)]
     for a, b in itertools.permutations(small, 2):
         out.append([a, b])
     triples = list(itertools.permutations([COMPONENT_SPECS[i] for i in (0, 2, 4, 6, 8, 11, 12)], 3))
     rng.shuffle(triples)
-    out += [list(t) for t in triples[: ctx.pick(60, 210)]]
+    out += [list(t) for t in triples[: ctx.pick(60, 210)]]  # 210 = all of them
     # production order: cert auth, access control, rate limiter
     for c, a, r in itertools.product((8, 9, 10), (6, 7), (11, 12)):
         out.append([COMPONENT_SPECS[c], COMPONENT_SPECS[a], COMPONENT_SPECS[r]])
